@@ -1150,3 +1150,98 @@ func describe(v ssa.Value) string {
 	}
 	return v.Name() + ":" + v.String()
 }
+
+// ---------------------------------------------------------------------------
+// path enumeration with phi resolution (for small loop-free functions)
+
+type pathState struct {
+	Phi   map[*ssa.Phi]ssa.Value
+	Edges map[cfgEdge]bool
+}
+
+// resolve follows phis chosen on this path.
+func (s *pathState) resolve(v ssa.Value) ssa.Value {
+	for i := 0; i < 16; i++ {
+		p, ok := v.(*ssa.Phi)
+		if !ok {
+			return v
+		}
+		r, ok := s.Phi[p]
+		if !ok {
+			return v
+		}
+		v = r
+	}
+	return v
+}
+
+// enumeratePaths walks every acyclic path from the function entry. visit is
+// called for every instruction with the path state; a branch whose condition
+// resolves (through the phis chosen on the path) to a boolean constant follows
+// only the feasible edge. It returns false if the path budget was exceeded.
+func enumeratePaths(fn *ssa.Function, maxPaths int, visit func(in ssa.Instruction, st *pathState)) bool {
+	n := 0
+	ok := true
+	var walk func(b, pred *ssa.BasicBlock, st *pathState, onPath map[*ssa.BasicBlock]bool)
+	walk = func(b, pred *ssa.BasicBlock, st *pathState, onPath map[*ssa.BasicBlock]bool) {
+		if !ok || onPath[b] {
+			return
+		}
+		onPath[b] = true
+		defer delete(onPath, b)
+		for _, in := range b.Instrs {
+			if p, isPhi := in.(*ssa.Phi); isPhi {
+				for i, pr := range b.Preds {
+					if pr == pred {
+						st.Phi[p] = p.Edges[i]
+					}
+				}
+			}
+			visit(in, st)
+			switch x := in.(type) {
+			case *ssa.If:
+				cond := st.resolve(x.Cond)
+				neg := false
+				for {
+					if u, isU := cond.(*ssa.UnOp); isU && u.Op == token.NOT {
+						neg = !neg
+						cond = st.resolve(u.X)
+						continue
+					}
+					break
+				}
+				for i := 0; i < 2; i++ {
+					if bv, isC := constBool(cond); isC {
+						if neg {
+							bv = !bv
+						}
+						if (i == 0) != bv {
+							continue
+						}
+					}
+					ns := &pathState{Phi: map[*ssa.Phi]ssa.Value{}, Edges: map[cfgEdge]bool{}}
+					for k, v := range st.Phi {
+						ns.Phi[k] = v
+					}
+					for k, v := range st.Edges {
+						ns.Edges[k] = v
+					}
+					ns.Edges[cfgEdge{b, i}] = true
+					walk(b.Succs[i], b, ns, onPath)
+				}
+				return
+			case *ssa.Jump:
+				walk(b.Succs[0], b, st, onPath)
+				return
+			case *ssa.Return, *ssa.Panic:
+				n++
+				if n > maxPaths {
+					ok = false
+				}
+				return
+			}
+		}
+	}
+	walk(fn.Blocks[0], nil, &pathState{Phi: map[*ssa.Phi]ssa.Value{}, Edges: map[cfgEdge]bool{}}, map[*ssa.BasicBlock]bool{})
+	return ok
+}
